@@ -283,7 +283,9 @@ fn judge(case: &Case, determinism: bool, out: &mut CaseOut, want_sample: bool)
 		// (4) renders in every configuration
 		for (color, ascii) in [(false, false), (false, true), (true, false), (true, true)]
 		{
-			match render(e, files, color, ascii)
+			let rendered = std::panic::catch_unwind(std::panic::AssertUnwindSafe(|| render(e, files, color, ascii)))
+				.unwrap_or_else(|_| Err("the renderer panicked".to_string()));
+			match rendered
 			{
 				Err(err) => out.fail(
 					format!("{}: report cannot be written", variant),
@@ -446,6 +448,63 @@ fn semantic_fault(c: &mut Choices) -> Case
 		planted_at: None,
 	}
 }
+/// a fault inside an expression (bit casts, lengths, addresses, strings,
+/// indices, members, calls), so that diagnostics point at expressions
+fn expression_fault(c: &mut Choices) -> Case
+{
+	use crate::ast::{print_program, Layout, Top};
+	const FAULTS: &[&str] = &[
+		"fn bad_cast_return()\n{\n\tvar y: i64 = 1;\n\treturn: cast y\n}",
+		"fn bad_cast_sum() -> i32\n{\n\tvar y: u32 = 1;\n\tvar r: i32 = cast y as i32 + true;\n\treturn: r\n}",
+		"fn bad_cast_mix() -> i32\n{\n\tvar y: u64 = 1;\n\tvar z: i32 = 2;\n\treturn: cast y + z\n}",
+		"fn bad_cast_assign()\n{\n\tvar y: u64 = 1;\n\tvar z: bool = false;\n\tz = cast y;\n}",
+		"fn bad_cast_arg() -> i32\n{\n\tvar y: u8 = 1;\n\treturn: bad_cast_mix(cast y)\n}",
+		"fn bad_length() -> usize\n{\n\tvar x: i32 = 1;\n\treturn: |x|\n}",
+		"fn bad_address()\n{\n\tvar x: i32 = 1;\n\tvar p: &i32 = &&x;\n}",
+		"fn bad_string() -> i32\n{\n\treturn: \"caf\u{e9}\"\n}",
+		"fn bad_index() -> i32\n{\n\tvar a: [2]i32 = [1, 2];\n\tvar i: u8 = 1;\n\treturn: a[i]\n}",
+		"fn bad_member() -> i32\n{\n\tvar x: i32 = 1;\n\treturn: x.member\n}",
+		"fn bad_negation() -> u8\n{\n\tvar x: u8 = 1;\n\treturn: -x\n}",
+		"fn bad_arguments() -> i32\n{\n\treturn: bad_negation(1, 2)\n}",
+		"fn bad_comparison() -> i32\n{\n\tvar x: i32 = 1;\n\tvar y: u8 = 2;\n\tif x == y\n\t{\n\t\tx = 2;\n\t}\n\treturn: x\n}",
+		"fn bad_array() -> i32\n{\n\tvar a = [1u8, 2u16];\n\treturn: 0\n}",
+		"fn bad_shift() -> i32\n{\n\tvar x: i32 = 1;\n\treturn: x << 2\n}",
+		"fn bad_as() -> bool\n{\n\tvar x: i32 = 1;\n\treturn: x as bool\n}",
+		"fn bad_sizeof() -> usize\n{\n\treturn: |:[]u8|\n}",
+		"fn bad_deref() -> i32\n{\n\tvar x: i32 = 1;\n\tvar p: &i32 = &x;\n\tvar q: &&i32 = &&p;\n\treturn: &q\n}",
+	];
+	let mut prog = crate::progen::generate(c, crate::progen::Profile::exec());
+	let text = *c.pick(FAULTS);
+	prog.raws.push(text.to_string());
+	let at = c.draw(prog.order.len() + 1);
+	prog.order.insert(at, Top::Raw(0));
+	let mut layout = Layout::random(c);
+	layout.comments = 3;
+	let src = print_program(&prog, layout, Some(c));
+	Case {
+		files: vec![("main.pn".into(), src)],
+		kind: "expression-fault",
+		planted_at: None,
+	}
+}
+
+/// a generated program with one type-breaking edit (C07's editor)
+fn typed_edit(c: &mut Choices) -> Case
+{
+	use crate::ast::{print_program, Layout};
+	let mut prog = crate::progen::generate(c, crate::progen::Profile::calls());
+	let _ = crate::typedit::break_one_type(&mut prog, c);
+	let mut layout = Layout::random(c);
+	layout.comments = 3;
+	let src = print_program(&prog, layout, Some(c));
+	Case {
+		files: vec![("main.pn".into(), src)],
+		kind: "typed-edit",
+		planted_at: None,
+	}
+}
+stream!(ExpressionFaults, "planted-expression-fault", 3000, 100_000, 1800, 10, expression_fault);
+stream!(TypedEdits, "typed-edits", 3000, 100_000, 1800, 10, typed_edit);
 stream!(SemanticFaults, "planted-semantic-fault", 3000, 100_000, 1800, 10, semantic_fault);
 stream!(ModuleSets, "module-sets", 600, 30_000, 4000, 2, mutgen::module_set);
 stream!(SplitPrograms, "split-programs-determinism", 400, 20_000, 1800, 1, valid_module_set);
@@ -527,6 +586,8 @@ impl Check for C13
 			Box::new(TokenSoup),
 			Box::new(Planted),
 			Box::new(SemanticFaults),
+			Box::new(ExpressionFaults),
+			Box::new(TypedEdits),
 			Box::new(ModuleSets),
 			Box::new(SplitPrograms),
 		]
